@@ -8,7 +8,23 @@ class Request:
     """A captured request, parsed permissively (decrypted with the reference cipher when needed)."""
 
     def __init__(self, cfg, wire):
+        """Never raises: a request the reference codec cannot read (the code under test emitted something
+        wrong) is data - `broken` is set and neutral defaults are used so that the script can go on; the trace
+        specification judges the datagram itself."""
         self.wire = bytes(wire)
+        self.broken = False
+        self.ver, self.msgid, self.engine = cfg.ver, 0, b""
+        self.pdu = dict(reqid=0, vbs=[], ptype="?", f2=0, f3=0)
+        try:
+            self._parse(cfg)
+        except Exception:
+            self.broken = True
+        self.reqid = self.pdu["reqid"]
+        self.names = [n for n, _ in self.pdu["vbs"]]
+        self.ptype = self.pdu["ptype"]
+        self.f3 = self.pdu["f3"]
+
+    def _parse(self, cfg):
         self.m = rc.parse_msg(self.wire)
         self.ver = self.m["ver"]
         if self.ver == "v3":
@@ -23,13 +39,7 @@ class Request:
             else:
                 self.pdu = self.m["pdu"]
         else:
-            self.msgid = 0
-            self.engine = b""
             self.pdu = self.m["pdu"]
-        self.reqid = self.pdu["reqid"]
-        self.names = [n for n, _ in self.pdu["vbs"]]
-        self.ptype = self.pdu["ptype"]
-        self.f3 = self.pdu["f3"]
 
 
 class Agent:
